@@ -140,7 +140,7 @@ def tlc(run, module, cfg=None, workers=None, timeout=900, env=None, mem="8g", ex
     meta = run.path("tlc-%d-%s" % (n, tag), "meta", "x")[:-2]
     tmp = run.path("tlc-%d-%s" % (n, tag), "tmp", "x")[:-2]
     logf = run.path("tlc-%d-%s" % (n, tag), "out.log")
-    jvm = ["java", "-XX:+UseParallelGC", "-Xmx" + mem, "-Djava.io.tmpdir=" + tmp]
+    jvm = ["java", "-XX:+UseParallelGC", "-Xmx" + mem, "-Xss512m", "-Djava.io.tmpdir=" + tmp]
     if queue_dfs:
         jvm.append("-Dtlc2.tool.queue.IStateQueue=StateDeque")
     cmd = jvm + ["-cp", TLA_CP, "tlc2.TLC", "-workers", str(workers or "auto"), "-metadir", meta,
